@@ -438,7 +438,8 @@ def build_generated(spec):
     r = random.Random(spec["gen"])
     obs = []
     m = Module()
-    cd, d2 = ClockDomain("sync"), ClockDomain("d2")
+    d2_edge, d2_async = r.choice(["pos", "pos", "neg"]), r.random() < 0.4
+    cd, d2 = ClockDomain("sync"), ClockDomain("d2", clk_edge=d2_edge, async_reset=d2_async)
     m.domains += [cd, d2]
     S_ = {n: Signal(w, name=n) for n, w in (("a", 3), ("b", 2), ("r1", 3), ("r2", 3), ("y", 3), ("z", 4), ("o", 4), ("q", 2), ("w", 4), ("p", 4))}
     a, b, r1, r2, y, z, o, q, w = (S_[n] for n in ("a", "b", "r1", "r2", "y", "z", "o", "q", "w"))
@@ -455,7 +456,7 @@ def build_generated(spec):
     (p1, per1), (p2, per2) = r.choice([(500, 1000), (250, 1000)]), r.choice([(500, 1000), (300, 600), (750, 1000), (250, 1000)])
     h.add_clock(cd, p1, per1)
     h.add_clock(d2, p2, per2)
-    text = [f"clocks sync {p1}+k*{per1 // 2} fs, d2 {p2}+k*{per2 // 2} fs"]
+    text = [f"clocks sync {p1}+k*{per1 // 2} fs, d2 {p2}+k*{per2 // 2} fs ({d2_edge} edge{', asynchronous reset' if d2_async else ''})"]
     if r.random() < 0.7:
         async def adder(ctx):
             async for av, r2v in ctx.changed(a, r2):
@@ -496,6 +497,8 @@ def build_generated(spec):
                 values[op[3]] = fresh(op[3], op[2][1] - op[2][0], False)
     doms = {"sync": cd, "d2": d2}
 
+    clock_of = {"sync": (p1, per1, "pos"), "d2": (p2, per2, d2_edge), None: (p1, per1, "pos")}
+
     def make(tb, ops):
         async def script(ctx):
             for k, op in enumerate(ops):
@@ -510,7 +513,10 @@ def build_generated(spec):
                     res = await ctx.tick(op[1]).sample(*[S_[n] for n in op[2]])
                     for n, v in zip(op[2], res[2:]):
                         obs.append((f"{tag} sample {n}", v))
-                    obs.append((f"{tag} time", ctx.elapsed_time().femtoseconds))
+                    t_now = ctx.elapsed_time().femtoseconds
+                    obs.append((f"{tag} time", t_now))
+                    ph, per, edge = clock_of[op[1]]
+                    obs.append((f"{tag} resumes at an active edge of {op[1]}", (t_now - ph - (0 if edge == "pos" else per // 2)) % per, 0))
                 elif op[0] == "delay":
                     await ctx.delay(period_fs(op[1]))
                     obs.append((f"{tag} time", ctx.elapsed_time().femtoseconds))
